@@ -1275,6 +1275,7 @@ def main():
         "ByteEnable + Error: harness mode be=1 (RvPacketStream<UInt,TxId,ByteEnable,Error>, digit = byte, payloads up to 96 bit) through every stage kind; in the Coq model a digit is then the pair (byte, its enable bit) encoded as byte + 256*enable and the error bit rides in the meta word (txid + 8*error): the machines never look inside a digit / meta word, so the universal theorems state that enables and error stay attached and are sliced / packed with their bytes (unpack_digit_view, pack_digit_view, *_byteEnable_slices); that the REAL stages treat payload and enables in lockstep is established by the cycle-accurate diff and, independently, by the python oracle which slices the enables itself",
         "observation (not checked, loud on the real code): Packet.h widthExtend on a ByteEnable stream elaborates only from a one-byte source to 2 or 4 bytes (8b->16b, 8b->32b are in the family); wider sources fail with DesignCheck 'missmatching operands size', 8b->24b with Assertion rangeOffset < totalWidth",
         "Packet.h widthExtend / widthReduce are modelled (pextendS / preduceS) and tied cycle-exactly for streams WITHOUT Empty/EmptyBits; streams that carry EmptyBits (partial last beats, truncation path of widthReduce) have no Coq machine: they are checked by the packet oracle only (packets in == packets out digit exact, eop beat not empty, TxId of the eop beat kept, hold rule, drain) -- differential, not theorem",
+        "scl::Empty (empty BYTES; harness em=1, RvPacketStream<UInt,TxId,Empty>, digit = byte) runs through the same packet family and packet oracle as EmptyBits: widthExtend ratios 2..8, widthReduce, matchWidth stand-in, registers, stall, fifo; the FIRST packet after reset is drawn from the full length distribution (1 byte .. several wide beats, exactly one wide beat) with and without back pressure on its first beat, and the byte-level packet sequence is compared from the very first transfer; differential only (no Coq machine for the Empty arithmetic)",
         "Packet.h matchWidth cannot be instantiated (Packet.h:798 calls in.width() on the Stream object; reported, not repaired): harness token pm<t> is a stand-in that makes the same three-way choice on in->width() and calls the real widthExtend / widthReduce; the model's matchD mirrors that choice",
         "excluded from generation and listed as observations: (a) widthExtend ratio 1 on a stream with EmptyBits (DesignCheck 'missmatching operands size'); (b) regDownstreamBlocking combinationally in front of widthExtend (or, with EmptyBits, widthReduce): ready(in) reads eop/emptyBits of a register without reset value, the simulation stays X from power-up (X-pessimism, harmless in hardware); (c) widthExtend | widthReduce on EmptyBits streams of some non power of two widths (9b->27b->9b): widthReduce's `bitsLeft - zext(emptyBits(in))` rejects the wider EmptyBits that widthExtend produces (elaboration error, no behavioural defect)",
         "packet family: the producer sends whole packets (prod=seq) with idle slots directly in front of the last beat of a packet / in front of one-beat packets / everywhere / nowhere while the consumer is always or mostly ready; emptyBits values are digit aligned (multiples of w)",
